@@ -501,7 +501,7 @@ class FloorTracer:
                     self.occs, self.sdlog = [], []
 
 
-def run_cfg(tid, cfg, seed=0, max_steps=20000, light=True, force=None, fixed=None, id_offset=0):
+def run_cfg(tid, cfg, seed=0, max_steps=20000, light=True, force=None, fixed=None, id_offset=0, max_parts=600):
     """Returns (lines, error).  A run that does not return within max_steps events is reported."""
     tr = None
     err = None
@@ -516,6 +516,9 @@ def run_cfg(tid, cfg, seed=0, max_steps=20000, light=True, force=None, fixed=Non
             count[0] += 1
             if count[0] > max_steps:
                 raise RuntimeError('NONTERMINATION: more than %d events' % max_steps)
+            if len(tr.parts) > max_parts:
+                # every recorded step carries all parts: a runaway source must be stopped before memory is
+                raise RuntimeError('NONTERMINATION: more than %d parts' % max_parts)
             inner()
         env.step = guarded
         tr.run()
